@@ -48,35 +48,42 @@ func (d *filesDir) ReadDir(n int) ([]fs.DirEntry, error) {
 	if d.name != "." {
 		dir = d.name + "/"
 	}
-	var names []string
+	var infos []filesFileInfo
 	hasDir := map[string]bool{}
-	for name := range d.fsys {
+	for name, data := range d.fsys {
 		if !strings.HasPrefix(name, dir) {
 			continue
 		}
+		info := filesFileInfo{name: name, data: data}
 		if i := strings.IndexByte(name[len(dir):], '/'); i > 0 {
 			name = name[:len(dir)+i]
 			if hasDir[name] {
 				continue
 			}
 			hasDir[name] = true
+			info = filesFileInfo{name: name, mode: fs.ModeDir}
 		}
-		names = append(names, name)
+		infos = append(infos, info)
 	}
-	sort.Strings(names)
+	sort.Slice(infos, func(i, j int) bool { return infos[i].name < infos[j].name })
+	// Skip the entries returned by the previous calls.
+	if d.n < len(infos) {
+		infos = infos[d.n:]
+	} else {
+		infos = nil
+	}
 	if n > 0 {
-		if len(names) <= d.n {
+		if len(infos) == 0 {
 			return nil, io.EOF
 		}
-		names = names[d.n:]
-		if len(names) > n {
-			names = names[:n]
+		if len(infos) > n {
+			infos = infos[:n]
 		}
-		d.n += len(names)
 	}
-	entries := make([]fs.DirEntry, len(names))
-	for i, name := range names {
-		entries[i] = &filesDirEntry{filesFileInfo{name: name}}
+	d.n += len(infos)
+	entries := make([]fs.DirEntry, len(infos))
+	for i := range infos {
+		entries[i] = &filesDirEntry{infos[i]}
 	}
 	return entries, nil
 }
@@ -87,7 +94,7 @@ type filesDirEntry struct {
 }
 
 func (f *filesDirEntry) Type() fs.FileMode {
-	return f.Mode()
+	return f.Mode().Type()
 }
 
 func (f *filesDirEntry) Info() (fs.FileInfo, error) {
